@@ -353,7 +353,14 @@ def case_git(ctx):
                 diffs = [(q, bv.get(q), mbv.get(q)) for q in sorted(set(bv) | set(mbv)) if bv.get(q) != mbv.get(q)]
                 ctx.fail("git:basis-vs-model", "after commit: %r" % (diffs[:4],), {"ops": [gen.op_json(o) for o in ops]}, stop=True)
         elif op["op"] == "revert":
-            rconf = wt.revert()
+            try:
+                rconf = wt.revert()
+            except Exception as e:
+                if type(e).__name__ != "MalformedTransform":
+                    raise
+                kinds = sorted({c[0].replace(" ", "-") for c in getattr(e, "conflicts", []) or []})
+                ctx.fail("%srevert:raised:MalformedTransform:%s" % ("git:", "+".join(kinds) or "?"), "revert of a legal tree raised %r" % (e,),
+                         {"ops": [gen.op_json(o) for o in ops]}, stop=True)
             basis = w.basis
             if rconf or len(wt.conflicts()):
                 ctx.hist("git-revert-with-conflicts")
@@ -485,7 +492,14 @@ def case(ctx):
                 diffs = [(q, bv.get(q), mbv.get(q)) for q in sorted(set(bv) | set(mbv)) if bv.get(q) != mbv.get(q)]
                 ctx.fail("basis-vs-model", "after commit: %r" % (diffs[:4],), {"ops": [gen.op_json(o) for o in ops]}, stop=True)
         elif op["op"] == "revert":
-            rconf = wt.revert()
+            try:
+                rconf = wt.revert()
+            except Exception as e:
+                if type(e).__name__ != "MalformedTransform":
+                    raise
+                kinds = sorted({c[0].replace(" ", "-") for c in getattr(e, "conflicts", []) or []})
+                ctx.fail("%srevert:raised:MalformedTransform:%s" % ("", "+".join(kinds) or "?"), "revert of a legal tree raised %r" % (e,),
+                         {"ops": [gen.op_json(o) for o in ops]}, stop=True)
             if rconf or len(wt.conflicts()):
                 # revert met conflicts (e.g. an unversioned file in the way) and resolved them its own
                 # way (".moved" names); the property's model is silent there: resync and go on
